@@ -663,3 +663,79 @@ UNITS += [
          assumptions=["calc_mean_energy_loss by its contract (c01_calc_mean_energy_loss)", "the fluctuation sampler returns any non-negative value (distribution shape not decided)", "NOT PROMOTED: CELER_EXPECT(eloss > 0) on the mean loss (table data)"],
          note="FluctELoss::calc_eloss: for ANY sampled loss the returned loss is in [0, E]; == E only when cutting or on a range-limited step; with the cut, either everything or a remainder above the tracking threshold; in-body ASSERT/ENSURE hold"),
 ]
+
+
+# ---------------------------------------------------------------------------
+# CutoffView::get / energy / apply: which secondaries are below the production cut
+# ---------------------------------------------------------------------------
+CUT = "src/celeritas/phys/CutoffView.hh"
+CUT_MODEL = """
+#define INVALID_ID ((size_type)-1)
+typedef struct { real_type energy, range; } ParticleCutoff;
+typedef struct { size_type gamma, electron, positron; } CutoffIds;
+typedef struct { ParticleCutoff const* cutoffs; size_type cutoffs_size; size_type const* id_to_index; size_type id_to_index_size; size_type num_particles, num_materials; bool apply_post_interaction; CutoffIds ids; } CutoffData;
+typedef struct { CutoffData const* params_; size_type material_; } CutoffView;
+typedef struct { size_type particle_id; real_type energy; } Secondary;      /* the two members apply() reads */
+#define CUT_EXT 32ul         /* stated bound of this unit: at most 32 particle types with cutoffs x 32 materials (the index product is decided by SAT for small extents only) */
+/* CutoffParamsData::operator bool + the view constructor's EXPECTs */
+#define CUT_OK(v) (__CPROVER_r_ok(v, sizeof(CutoffView)) && __CPROVER_r_ok((v)->params_, sizeof(CutoffData)) && (v)->params_->num_particles >= 1 && (v)->params_->num_particles <= CUT_EXT && (v)->params_->num_materials >= 1 && (v)->params_->num_materials <= CUT_EXT \\
+    && (v)->params_->cutoffs_size == (v)->params_->num_particles * (v)->params_->num_materials && (v)->params_->id_to_index_size >= 1 && (v)->params_->id_to_index_size <= 64 && (v)->material_ < (v)->params_->num_materials \\
+    && __CPROVER_r_ok((v)->params_->cutoffs, (v)->params_->cutoffs_size * sizeof(ParticleCutoff)) && __CPROVER_r_ok((v)->params_->id_to_index, (v)->params_->id_to_index_size * sizeof(size_type)))
+#define HAS_CUT(v, p) ((p) < (v)->params_->id_to_index_size && (v)->params_->id_to_index[p] < (v)->params_->num_particles)
+#define CUT_OF(v, p) ((v)->params_->cutoffs[(v)->params_->num_materials * (v)->params_->id_to_index[p] + (v)->material_])
+"""
+CUT_RULES = [
+    Rule(r"params_\.id_to_index\.size\(\)", "self->params_->id_to_index_size", "*", note="Collection::size()"),
+    Rule(r"params_\.cutoffs\.size\(\)", "self->params_->cutoffs_size", "*", note="Collection::size()"),
+    Rule(r"CutoffId id\{([^{}]*)\};", r"size_type id = (\1);", (0, 1), flags=16, note="OpaqueId construction -> integer"),
+    Rule(r"material_\.get\(\)", "self->material_", "*", note="OpaqueId::get()"),
+    Rule(r"\bparams_\.", "self->params_->", "*", note="const& member -> pointer"),
+    Rule(r"this->get\(particle\)", "CUT_get(self, particle)", "*", note="member call (real body)"),
+    Rule(r"this->energy\(secondary\.particle_id\)", "CUT_energy(self, secondary->particle_id)", "*", note="member call (real body)"),
+    Rule(r"\bsecondary\.", "secondary->", "*", note="const& parameter -> pointer"),
+]
+
+
+def build_cutoff_view(ctx):
+    g = ctx.func(CUT, r"^CELER_FUNCTION ParticleCutoff CutoffView::get\(ParticleId particle\) const", CUT_RULES, name="CutoffView::get")
+    e = ctx.func(CUT, r"^CELER_FUNCTION auto CutoffView::energy\(ParticleId particle\) const -> Energy", CUT_RULES, name="CutoffView::energy")
+    a = ctx.func(CUT, r"^CELER_FUNCTION bool CutoffView::apply\(Secondary const& secondary\) const", CUT_RULES, name="CutoffView::apply")
+    return (HDR + "#include <stdlib.h>\n" + CUT_MODEL + """
+typedef size_type ParticleId;
+ParticleCutoff CUT_get(CutoffView const* self, ParticleId particle)
+__CPROVER_requires(CUT_OK(self) && HAS_CUT(self, particle))        /* own CELER_EXPECTs */
+__CPROVER_assigns()
+/* the entry of THIS particle type in THIS material (row-major: particle-major), read inside the table (own CELER_ENSURE) */
+__CPROVER_ensures(__CPROVER_return_value.energy == CUT_OF(self, particle).energy || __CPROVER_isnand(CUT_OF(self, particle).energy))
+{""" + g.body + """}
+static real_type CUT_energy(CutoffView const* self, ParticleId particle)
+{""" + e.body + """}
+bool CUT_apply(CutoffView const* self, Secondary const* secondary)
+__CPROVER_requires(CUT_OK(self) && __CPROVER_r_ok(secondary, sizeof(*secondary)))
+/* photons, electrons and positrons have production cuts */
+__CPROVER_requires(HAS_CUT(self, self->params_->ids.gamma) && HAS_CUT(self, self->params_->ids.electron) && HAS_CUT(self, self->params_->ids.positron))
+__CPROVER_assigns()
+/* a secondary is below the production cut iff it is a gamma / e- / e+ AND its energy is below the cut of ITS OWN type in this material; any other particle is never cut (and the table is not consulted for it) */
+__CPROVER_ensures(__CPROVER_return_value == ((secondary->particle_id == self->params_->ids.gamma || secondary->particle_id == self->params_->ids.electron || secondary->particle_id == self->params_->ids.positron)
+                                              ? (secondary->energy < CUT_OF(self, secondary->particle_id).energy) : 0))
+{""" + a.body + """}
+static void mk(CutoffView* v, CutoffData* d)
+{
+    size_type np, nm, ni; __CPROVER_assume(np >= 1 && np <= CUT_EXT && nm >= 1 && nm <= CUT_EXT && ni >= 1 && ni <= 64);
+    d->num_particles = np; d->num_materials = nm; d->cutoffs_size = np * nm; d->id_to_index_size = ni;
+    d->cutoffs = malloc(np * nm * sizeof(ParticleCutoff)); d->id_to_index = malloc(ni * sizeof(size_type)); __CPROVER_assume(d->cutoffs != 0 && d->id_to_index != 0);
+    v->params_ = d;
+}
+void h_cut_get(void) { CutoffView v; CutoffData d; mk(&v, &d); ParticleId p; CUT_get(&v, p); VERIF_CANARY(); }
+void h_cut_apply(void) { CutoffView v; CutoffData d; mk(&v, &d); Secondary s; CUT_apply(&v, &s); VERIF_CANARY(); }
+""")
+
+
+UNITS += [
+    Unit("c01_cutoff_get", build_cutoff_view, "h_cut_get", enforce="CUT_get", timeout=300, backend=["sat", "kissat", "cvc5"], bounded="at most 32 particle types x 32 materials",
+         must_have=[r"CUT_get.postcondition", r"celer_expect", r"celer_ensure"], checks=["--bounds-check", "--pointer-check", "--unsigned-overflow-check"],
+         note="CutoffView::get: reads the cutoff of the given particle type in the view's material, inside the table (its own CELER_ENSURE)"),
+    Unit("c01_cutoff_apply", build_cutoff_view, "h_cut_apply", enforce="CUT_apply", timeout=300, backend=["sat", "kissat", "cvc5"], bounded="at most 32 particle types x 32 materials",
+         must_have=[r"CUT_apply.postcondition", r"celer_expect"], checks=["--bounds-check", "--pointer-check", "--unsigned-overflow-check"],
+         note="CutoffView::apply: true exactly for a gamma / electron / positron whose energy is below the production cut of its own type in this material; other particles never (table not consulted)"),
+]
